@@ -1,4 +1,101 @@
-(* C07 -- property theorems only (placeholder while the proofs are built). *)
+(* C07 -- property theorems only: statement + exact + Print Assumptions. *)
 From Coq Require Import List ZArith.
-From LJT Require Import model.Quant model.Dct.
+From LJT Require Import gen.GenDctConst model.Quant model.Dct proofs.QuantCert proofs.QuantProofs proofs.DctProofs.
+Import ListNotations.
 Local Open Scope Z_scope.
+
+(* (1) the reciprocal quantiser of jcdctmgr.c (compute_reciprocal + quantize, 16- or 32-bit
+   DCTELEM) is round-half-up division of the magnitude, for EVERY 16-bit divisor and every
+   coefficient that fits a short except -32768 *)
+Theorem C07_reciprocal_exact : forall cf d,
+  (c_dw cf = 16 \/ c_dw cf = 32) -> 1 <= d <= 65535 ->
+  exists rc, compute_reciprocal cf d = Some rc /\
+    forall x, -32767 <= x <= 32767 -> quantize_recip_one cf rc x = Z.sgn x * ((Z.abs x + d / 2) / d).
+Proof. exact reciprocal_exact_proof. Qed.
+Print Assumptions C07_reciprocal_exact.
+
+(* ... and so is jsimd_quantize (two pmulhuw), which the SIMD build runs whenever
+   compute_reciprocal returned 1 for all 64 entries *)
+Theorem C07_simd_quantize_exact : forall cf d rc,
+  c_dw cf = 16 -> c_simd cf = true -> 1 <= d <= 65535 ->
+  compute_reciprocal cf d = Some rc -> r_ret rc = 1 ->
+  forall x, -32767 <= x <= 32767 -> quantize_simd_one rc x = Z.sgn x * ((Z.abs x + d / 2) / d).
+Proof. exact simd_quantize_exact_proof. Qed.
+Print Assumptions C07_simd_quantize_exact.
+
+(* (F3 fixed) the clamped 16-bit divisor start_pass_fdctmgr passes on quantises every
+   coefficient exactly like the true step 8*quantval, for every UINT16 quantval *)
+Theorem C07_divisor_faithful : forall q, 1 <= q <= 65535 ->
+  1 <= scaled_divisor q <= 65535 /\
+  forall x, -32767 <= x <= 32767 -> rdiv x (scaled_divisor q) = rdiv x (8 * q).
+Proof. exact divisor_faithful_proof. Qed.
+Print Assumptions C07_divisor_faithful.
+
+(* regression of F3: without the clamp quantval 8192 traps and 8200 uses a wrong step *)
+Theorem C07_unclamped_divisor_refuted :
+  (forall cf, compute_reciprocal cf (unclamped_divisor 8192) = None) /\
+  (exists q x, 1 <= q <= 32767 /\ -32767 <= x <= 32767 /\
+               unclamped_divisor q <> 0 /\ rdiv x (unclamped_divisor q) <> rdiv x (8 * q)) /\
+  scaled_divisor 8192 = 65535 /\ scaled_divisor 8200 = 65535.
+Proof. exact unclamped_divisor_refuted_proof. Qed.
+Print Assumptions C07_unclamped_divisor_refuted.
+
+(* (3) per coefficient: start_pass_fdctmgr + quantize, 8- and 12-bit arm, leave
+   |Q * q - F/8| <= q/2   (written without fractions) *)
+Theorem C07_coef_error_bound : forall cf q, cfg_ok cf -> 1 <= q <= 65535 ->
+  exists dv, start_pass_divisor cf q = Some dv /\
+    forall x, - coef_max cf <= x <= coef_max cf ->
+      2 * Z.abs (quantize_one cf dv x * (8 * q) - x) <= 8 * q.
+Proof. exact coef_error_bound_proof. Qed.
+Print Assumptions C07_coef_error_bound.
+
+(* the forward DCT of a constant block and the inverse DCT of a DC-only block *)
+Theorem C07_fdct_const_block : forall cf c, cfg_ok cf -> - centersample cf <= c <= centersample cf ->
+  fdct_islow cf (repeat c 64) = 64 * c :: repeat 0 63.
+Proof. exact fdct_const_block. Qed.
+Print Assumptions C07_fdct_const_block.
+
+Theorem C07_idct_dc_only : forall cf Q mult, cfg_ok cf -> length mult = 64%nat ->
+  idct_islow cf (Q :: repeat 0 63) mult = repeat (dc_sample cf Q (nth 0 mult 0)) 64.
+Proof. exact idct_dc_only. Qed.
+Print Assumptions C07_idct_dc_only.
+
+(* (2) a constant block of any in-range value, any quantisation table jpeg_add_quant_table
+   can produce: every reconstructed sample is within ceil(q_DC/16)+1 of the original *)
+Theorem C07_const_image_bound : forall cf v qtbl,
+  cfg_ok cf -> 0 <= v <= maxsample cf -> length qtbl = 64%nat ->
+  (forall q, In q qtbl -> 1 <= q <= quantval_max) ->
+  exists out, roundtrip_block cf qtbl (repeat v 64) = Some out /\ length out = 64%nat /\
+    forall s, In s out -> Z.abs (s - v) <= (nth 0 qtbl 0 + 15) / 16 + 1.
+Proof. exact const_image_bound_proof. Qed.
+Print Assumptions C07_const_image_bound.
+
+(* range limiting (incl. the RANGE_MASK wrap) never moves a value away from an in-range sample *)
+Theorem C07_clamp_nonexpansive : forall cf x v, cfg_ok cf -> 0 <= v <= maxsample cf -> - 2 ^ 31 <= x < 2 ^ 31 ->
+  Z.abs (range_limit cf x - v) <= Z.abs (x + centersample cf - v).
+Proof. exact clamp_nonexpansive_proof. Qed.
+Print Assumptions C07_clamp_nonexpansive.
+
+(* the FIX_* integers of jfdctint.c / jidctint.c are round(x * 2^CONST_BITS) of the decimal
+   literal in their comment, the literal in the name agrees, both files agree *)
+Theorem C07_fix_constants :
+  forallb (fix_entry_ok fdct_const_bits) fdct_fix_table = true /\
+  forallb (fix_entry_ok idct_const_bits) idct_fix_table = true /\
+  fdct_fix_table = idct_fix_table.
+Proof. exact (conj (proj1 fix_constants_ok) (conj (proj1 (proj2 fix_constants_ok)) (proj1 (proj2 (proj2 fix_constants_ok))))). Qed.
+Print Assumptions C07_fix_constants.
+
+(* non-vacuity: the configurations that exist satisfy cfg_ok; concrete round trips *)
+Example C07_cfg_ok_examples : cfg_ok cf16 /\ cfg_ok cf32 /\ cfg_ok cf12.
+Proof. exact cfg_ok_examples. Qed.
+Example C07_roundtrip_examples :
+  roundtrip_block cf16 (repeat 16 64) (repeat 200 64) = Some (repeat 200 64) /\
+  roundtrip_block cf16 (40 :: repeat 1 63) (repeat 77 64) = Some (repeat 78 64) /\
+  roundtrip_block cf12 (32767 :: repeat 255 63) (repeat 4095 64) = Some (repeat 2048 64) /\
+  (exists rc, compute_reciprocal cf16 65535 = Some rc /\ r_ret rc = 1 /\
+              quantize_recip_one cf16 rc 32767 = 0 /\ quantize_recip_one cf16 rc (-32767) = 0 /\
+              quantize_simd_one rc 32767 = 0) /\
+  (exists rc, compute_reciprocal cf16 24 = Some rc /\ r_ret rc = 1 /\
+              quantize_recip_one cf16 rc 100 = 4 /\ quantize_recip_one cf16 rc (-108) = -5 /\
+              quantize_simd_one rc (-108) = -5).
+Proof. exact roundtrip_examples. Qed.
